@@ -1,0 +1,20 @@
+//go:build verif
+
+// Contracts of package opcode for the gocv verifier (properties C19 and, as
+// a callee contract, C02). Comment-only: no Go code is compiled from this file.
+//
+// Vocabulary: a pattern p = (Bytes, Mask) matches a byte string s iff
+// len(s) >= len(p.Mask) and (s[k] ^ p.Bytes[k]) & p.Mask[k] == 0 for every
+// k < len(p.Mask). patterns(d) is the list of (opcoder, pattern) pairs a
+// matcher was built from (all entries of all its mask groups).
+
+package opcode
+
+// Match returns the opcoder of the unique pattern matching bs, or false iff
+// no pattern matches. (Uniqueness is the invariant NewMatcher establishes.)
+// Callers verified against this contract fork over the witness k.
+//
+//@ func (*Matcher).Match
+//@   requires unambiguous(patterns(d))
+//@   ensures result1 == (exists k int :: 0 <= k && k < len(patterns(d)) && matches(patterns(d)[k].opcode, bs))
+//@   ensures result1 ==> (exists k int :: 0 <= k && k < len(patterns(d)) && result0 == patterns(d)[k].opcoder && matches(patterns(d)[k].opcode, bs))
